@@ -53,7 +53,9 @@ class Gen:
             elif r < 0.92 and va:
                 out.append(', ## %s' % va); self.features.add('gnu-comma')
             elif r < 0.95 and va == '__VA_ARGS__':
-                out.append('__VA_OPT__( %s)' % ' '.join(self.plain() for _ in range(rng.randint(0, 2)))); self.features.add('va_opt')
+                # the content of __VA_OPT__ is replacement-list text: parameters, __VA_ARGS__, # and ## are processed in it
+                inner = [rng.choice([self.plain(), self.plain()] + list(params) + ['__VA_ARGS__'] + (['#' + rng.choice(params)] if params else [])) for _ in range(rng.randint(0, 3))]
+                out.append('__VA_OPT__( %s)' % ' '.join(inner)); self.features.add('va_opt')
             elif va: out.append(va)
             else: out.append(self.plain())
         return out
